@@ -339,6 +339,66 @@ func runC17(c *ctx, r *Report) error {
 		}
 		one(sb.String())
 	}
+	// workflow level: which validator each filter key gets. For every event that takes filters × every filter key ×
+	// patterns that are invalid as ref only / as both / valid: the linter reports the pattern iff the validator
+	// that belongs to the key (ref for branches* / tags*, path for paths*) does, at pattern column + offset.
+	{
+		events := []string{"push", "pull_request", "pull_request_target"}
+		keys := []struct {
+			key string
+			ref bool
+		}{{"branches", true}, {"branches-ignore", true}, {"tags", true}, {"tags-ignore", true}, {"paths", false}, {"paths-ignore", false}}
+		pats := []string{"v1:beta", "release/", "/v1", "v1 beta", "v1.", "v\\d", "a++", "[]", "v*", "main", "feature/**", "a~b", "x^", "docs/**/*.md", "!x", "[a-z]+"}
+		for _, ev := range events {
+			for _, k := range keys {
+				if strings.HasPrefix(k.key, "tags") && ev != "push" {
+					continue
+				}
+				for _, q := range []string{"'", "\""} {
+					for _, pat := range pats {
+						if q == "\"" && strings.Contains(pat, "\\") {
+							continue
+						}
+						line := "    " + k.key + ": [" + q + pat + q + "]"
+						src := "on:\n  " + ev + ":\n" + line + "\njobs:\n  j:\n    runs-on: ubuntu-latest\n    steps:\n      - run: echo\n"
+						errs, err := lintSrc("g.yaml", src)
+						r.Evaluations++
+						if err != nil {
+							continue
+						}
+						var want []actionlint.InvalidGlobPattern
+						if k.ref {
+							want = actionlint.ValidateRefGlob(pat)
+						} else {
+							want = actionlint.ValidatePathGlob(pat)
+						}
+						var got []string
+						for _, e := range errs {
+							if e.Kind == "glob" {
+								got = append(got, fmt.Sprintf("%d:%d:%s", e.Line, e.Column, strings.SplitN(e.Message, ". note:", 2)[0]))
+							}
+						}
+						var exp []string
+						col0 := len("    "+k.key+": [") + 1 + 1 // first character of the pattern inside the quotes
+						for _, w := range want {
+							c := col0
+							if w.Column != 0 {
+								c += w.Column - 1
+							}
+							exp = append(exp, fmt.Sprintf("3:%d:%s", c, w.Message))
+						}
+						r.hist("wf-filter:" + map[bool]string{true: "reported", false: "accepted"}[len(got) > 0])
+						r.nontrivial("wf:" + ev + k.key + pat + q)
+						if strings.Join(got, "|") != strings.Join(exp, "|") {
+							r.finding("filter-key-validator:"+k.key, fmt.Sprintf("on.%s.%s: the pattern %q is not validated by the %s rules of that key", ev, k.key, pat, map[bool]string{true: "ref-name", false: "path"}[k.ref]),
+								Case{Op: "lint-filter", Input: map[string]string{"yaml": src}, Impl: strings.Join(got, " | "), Model: strings.Join(exp, " | ")})
+						}
+					}
+				}
+			}
+		}
+		r.Rule += "; workflow level: events push / pull_request / pull_request_target × the six filter keys × 16 patterns × two quote styles through the real linter: reported exactly as the validator that belongs to the key reports it, at pattern column + offset"
+	}
 	r.Exhaustive = true
 	r.sample(map[string]string{"op": "glob ref", "pattern": strconv.Quote("[a-"), "impl": func() string { s, _, _ := canonGlob(actionlint.ValidateRefGlob("[a-")); return s }()})
 	r.sample(map[string]string{"op": "glob path", "pattern": strconv.Quote("a\\[+"), "impl": func() string { s, _, _ := canonGlob(actionlint.ValidatePathGlob("a\\[+")); return s }()})
